@@ -32,6 +32,13 @@ out.append("Each change was written by a fresh sub-agent that saw only the prope
            "confirmed by `tools/keep_mutation.py` in a scratch worktree of /repo HEAD (patch applies, demo passes on /repo and fails with the change, "
            "the whole repository test-suite still passes with it), and is kept as `seeded/<id>/{patch.diff,demo.py,meta.json}`. "
            "Entries `exit/violations`; `nfi` = VIOLATION lines ending in no-failing-input-found.\n")
+_metas = [json.load(open(mf)) for mf in sorted(glob.glob("/verif/seeded/*/meta.json"))]
+_own = sum(1 for m in _metas if m["detected_by"].get(m["property"], {}).get("exit") == 1 and m["detected_by"][m["property"]].get("violation_lines", 0) > 0)
+_nfi_only = sum(1 for m in _metas if m["detected_by"].get(m["property"], {}).get("exit") == 1 and m["detected_by"][m["property"]].get("violation_lines", 0) == m["detected_by"][m["property"]].get("without_failing_input", -1))
+out.append("**Summary.** %d confirmed seeded changes from six independent rounds (rounds 1-2: before this document's §8 was first written; rounds 3-6: `seeded_raw/r3_*` ... `r6_*`); "
+           "%d of them are reported (exit 1 with at least one VIOLATION line) by the check of the property they were written against, as re-measured by `tools/redetect.py` "
+           "after the last strengthening; for %d of those every VIOLATION line ends in no-failing-input-found (the change breaks the correspondence but no clause of the property on an input the search found). "
+           "At first sight (before the follow-up work recorded in each property's notes) the own check missed 8/60 (rounds 1-2), 19/60 (round 3), 22/60 (round 4), 23/60 (round 5), 20/60 (round 6).\n" % (len(_metas), _own, _nfi_only))
 out.append("| seeded change | property | needs to manifest | detected by (exit code / VIOLATION lines) |\n|---|---|---|---|")
 for mf in sorted(glob.glob("/verif/seeded/*/meta.json")):
     m = json.load(open(mf))
